@@ -56,6 +56,8 @@ type Session struct {
 	ExtTable     string `json:"extTable"`
 	Rounds       int    `json:"rounds"` // input blocks (stream: one per OnInput round)
 	Seed         int64  `json:"seed"`
+	// further queries on the same connection (their query fields only; connection-level fields come from this one)
+	More []Session `json:"more"`
 }
 
 type Event map[string]any
@@ -212,6 +214,18 @@ func Run(s Session) ([]Event, error) {
 		return nil, err
 	}
 	evs = append(evs, qe)
+	for i, m := range s.More {
+		if cl.IsClosed() {
+			break
+		}
+		m.ID = fmt.Sprintf("%s+%d", s.ID, i+1)
+		m.Compression, m.ConnSettings = s.Compression, s.ConnSettings
+		qe, err := runQuery(m, cl, conn, len(conn.Snap().Written), min(crev, s.ServerRev))
+		if err != nil {
+			return nil, err
+		}
+		evs = append(evs, qe)
+	}
 	_ = cl.Close()
 	conn.StopServer()
 	return evs, nil
@@ -263,6 +277,14 @@ func (q *queryServer) run(rev int) {
 			return
 		}
 	}
+	q.one(rev, q.s.Scn)
+	for _, m := range q.s.More {
+		q.one(rev, m.Scn)
+	}
+}
+
+// one serves one query.
+func (q *queryServer) one(rev int, scn string) {
 	code, err := q.r.UVarInt()
 	if err != nil || proto.ClientCode(code) != proto.ClientCodeQuery {
 		return
@@ -281,7 +303,7 @@ func (q *queryServer) run(rev int) {
 		}
 	}
 	var b proto.Buffer
-	if q.s.Scn != "select" {
+	if scn != "select" {
 		// header block for the schema exchange
 		proto.ServerCodeData.Encode(&b)
 		if proto.FeatureTempTables.In(rev) {
@@ -360,11 +382,11 @@ var _ = bytes.Equal
 type packet struct {
 	Table  string           `json:"table"`
 	TableB []int            `json:"tableB"`
-	Names []any            `json:"names"`
-	Types []any            `json:"types"`
-	ASTs  []map[string]any `json:"asts"`
-	Rows  int              `json:"rows"`
-	Cols  []any            `json:"cols"`
+	Names  []any            `json:"names"`
+	Types  []any            `json:"types"`
+	ASTs   []map[string]any `json:"asts"`
+	Rows   int              `json:"rows"`
+	Cols   []any            `json:"cols"`
 }
 
 func blankPacket() packet {
